@@ -77,13 +77,14 @@ type Gen struct {
 	goStmts     []string
 	freshNames  map[string]bool
 	blockingOps []string
+	arrSync     map[string][2]string
 }
 
 func NewGen(w *World, fnName string) *Gen {
 	g := &Gen{W: w, sc: NewScript(), fnName: fnName, structs: map[string]string{}, structTy: map[string]*types.Struct{},
 		tags: map[string]int{}, strLits: map[string]Term{}, heapDecl: map[string]bool{}, tparams: map[string]bool{},
 		absDecl: map[string]bool{}, usedAssumed: map[string]bool{}, inlined: map[string]bool{}, ghostSort: map[string]string{},
-		closures: map[string]*closureVal{}, usedProved: map[string]bool{}, freshNames: map[string]bool{}}
+		closures: map[string]*closureVal{}, usedProved: map[string]bool{}, freshNames: map[string]bool{}, arrSync: map[string][2]string{}}
 	g.sc.Decl(preludeText)
 	g.curBase = "allocBase"
 	return g
